@@ -27,6 +27,16 @@ Theorem C16_matrix_size : List.length (list_prod styles (list_prod dkinds ann_ta
 Proof. vm_compute; reflexivity. Qed.
 Print Assumptions C16_matrix_size.
 
+(* The "both annotated" variant of docs/using_field_properties.rst (public field carrying the
+   default + `_wheels: int = field(init=False)` "to make the IDE happier", in either order, the
+   underscored line bare / empty Field / carrying a default, a value or a factory): the
+   default declared on the underscored line wins when there is one, else the one carried by
+   Annotated on the public field or implied by ITS type - never the `int` of the helper line. *)
+Theorem C16_matrix_both :
+  forall c, In c (list_prod [true; false] (list_prod ukinds (list_prod pub_kinds ann_table))) -> cell2_ok c = true.
+Proof. exact matrix_both_cells. Qed.
+Print Assumptions C16_matrix_both.
+
 (* ---- declaration lists of any length ------------------------------------------------------ *)
 (* Constructor signature = public names in declaration order (field properties with the
    property object as default, plain fields with their own default), for both layouts. *)
